@@ -6,15 +6,55 @@ shards: start, a sidecar killed and restarted on its store, a Prometheus that re
 target removed.  Snapshots of the real world (every sidecar's status, what every Prometheus has loaded) are taken all
 the time; TLC evaluates the run-level formulas of KvassProps on them (KvassEval): converged at the end of every quiet
 phase, and no gap between snapshots."""
-import json, os, signal, subprocess, threading, time, urllib.request, urllib.parse
+import http.client, json, os, signal, subprocess, threading, time, urllib.request, urllib.parse
 from http.server import BaseHTTPRequestHandler, ThreadingHTTPServer
 import yaml
 from . import common as C
 from . import binary as B
 
-SCRAPE_EVERY = 0.12
+SCRAPE_EVERY = 0.15
 CYCLE = '250ms'
 DEADLINE = 90.0        # a quiet phase converges in about 3 s; this is the bound after which it is called stuck
+
+
+class Conn:
+    """One connection that is kept open (every request on a connection of its own would leave a socket waiting for a minute:
+    a scenario makes some ten thousand requests, and the local ports are shared with everything else on the machine)."""
+
+    def __init__(self, hostport):
+        self.hostport, self.c = hostport, None
+
+    def request(self, method, url, body=None, timeout=5):
+        data = None if body is None else json.dumps(body).encode()
+        for attempt in (0, 1):
+            try:
+                if self.c is None:
+                    self.c = http.client.HTTPConnection(self.hostport, timeout=timeout)
+                self.c.request(method, url, body=data, headers={'Content-Type': 'application/json'} if data else {})
+                r = self.c.getresponse()
+                txt = r.read()
+                if r.will_close:
+                    self.close()
+                return r.status, txt
+            except Exception:
+                self.close()
+                if attempt:
+                    raise
+        raise RuntimeError('unreachable')
+
+    def json(self, method, url, body=None, timeout=5):
+        st, txt = self.request(method, url, body, timeout)
+        if st >= 300:
+            raise RuntimeError('HTTP %d' % st)
+        return json.loads(txt.decode()) if txt.strip() else {}
+
+    def close(self):
+        try:
+            if self.c is not None:
+                self.c.close()
+        except Exception:
+            pass
+        self.c = None
 
 
 class QuietServer(ThreadingHTTPServer):
@@ -31,6 +71,8 @@ class TargetSrv:
         outer = self
 
         class H(BaseHTTPRequestHandler):
+            protocol_version = 'HTTP/1.1'
+
             def log_message(self, *a):
                 pass
 
@@ -59,6 +101,7 @@ class FakeProm:
     def __init__(self, genfile):
         self.genfile, self.refuse, self.loaded, self.scrapes, self.stop, self.refused, self.loaded_text = genfile, False, [], 0, False, 0, ''
         self.lock = threading.Lock()
+        self.conn = None
         outer = self
 
         class H(BaseHTTPRequestHandler):
@@ -113,9 +156,10 @@ class FakeProm:
                 ts = list(self.loaded)
             for t in ts:
                 try:
-                    op = urllib.request.build_opener(urllib.request.ProxyHandler({'http': t['proxy']} if t['proxy'] else {}))
-                    with op.open(t['url'], timeout=3) as r:
-                        r.read()
+                    hp = urllib.parse.urlparse(t['proxy']).netloc
+                    if self.conn is None or self.conn.hostport != hp:
+                        self.conn = Conn(hp)
+                    self.conn.request('GET', t['url'], timeout=3)      # (absolute URL: the request of a client that uses a proxy)
                 except Exception:
                     pass
                 self.scrapes += 1
@@ -136,6 +180,7 @@ class Shard:
         self.api = 'http://127.0.0.1:%d' % B.free_port()
         self.proxy = '127.0.0.1:%d' % B.free_port()
         self.proc = None
+        self.conn = None
 
     def start(self):
         self.proc = subprocess.Popen([self.binp, 'sidecar', '--store.path=' + os.path.join(self.dir, 'store'), '--config.file=',
@@ -159,15 +204,17 @@ class Shard:
             self.proc.wait()
 
     def status(self):
-        st = B.http('GET', self.api + '/api/v1/shard/targets/status/', timeout=3)['data'] or {}
-        rt = B.http('GET', self.api + '/api/v1/shard/runtimeinfo/', timeout=3)['data']
+        if self.conn is None:
+            self.conn = Conn(self.api[len('http://'):])
+        st = self.conn.json('GET', '/api/v1/shard/targets/status/', timeout=3)['data'] or {}
+        rt = self.conn.json('GET', '/api/v1/shard/runtimeinfo/', timeout=3)['data']
         return st, rt
 
 
 class System:
     def __init__(self, scratch, binp, sizes, nshards, opts, nrep=1):
         self.d = os.path.join(scratch, 'system')
-        os.makedirs(self.d)
+        os.makedirs(self.d, exist_ok=True)
         self.opts = opts
         self.targets = [TargetSrv(i + 1, s) for i, s in enumerate(sizes)]
         self.disc = set()
@@ -435,8 +482,16 @@ def evaluate(scratch, sd, tier, seed, nrep=1):
     runs, notes = [], []
     for k in range(1 if tier == 'quick' else (4 if nrep == 1 else 2)):
         sub = os.path.join(scratch, 'sys%d' % k)
-        os.makedirs(sub)
-        rs, n = scenario(sub, binp, rnd, nrep)
+        rs = None
+        for attempt in range(3):
+            try:
+                rs, n = scenario(sub + ('' if attempt == 0 else '-retry%d' % attempt), binp, rnd, nrep)
+                break
+            except C.Inconclusive:
+                # a process that does not come up (no free port at that moment, a loaded machine): once more, later
+                if attempt == 2:
+                    raise
+                time.sleep(20)
         for r in rs:
             r['id'] = 900000 + len(runs)
             r['scenario'] = k
